@@ -24,8 +24,10 @@ CONSTANTS N,      \* number of sources
           SIG,    \* TRUE: the environment may deliver one SIGINT at any time
           SHAPES, \* set of script shapes sources may take
           DROPFIRST, \* TRUE: a worker drops its reader (temp file) before sending FileSummary
-          REGATOMIC  \* TRUE: a temp file is created and listed under one NAMED_TEMP_FILES lock,
+          REGATOMIC, \* TRUE: a temp file is created and listed under one NAMED_TEMP_FILES lock,
                      \*       and the handler closes the list (no creation afterwards)
+          EPIPE      \* TRUE: a write to standard output may fail (`s4 ... | head`): the print path then
+                     \*       disconnects that source's channel and carries on
 
 W == 1..N
 
@@ -227,6 +229,18 @@ CPrint ==
   /\ UNCHANGED <<dts, shape, wpc, wi, ri, closed, rdrop, live, fi, fic, got,
                  recvErr, errs, ret, disk, listed, hpc, exitEarly, ntfClosed, exited>>
 
+\* a print fails (closed pipe): the message is consumed, the source's channel is disconnected at the end of the
+\* iteration (its worker's later sends fail at once); nothing is counted as printed
+CPrintError ==
+  /\ EPIPE /\ Alive /\ cpc = "loop" /\ ~exitEarly /\ ~MustRecv /\ ~WriteLocked
+  /\ \E w \in PendSet :
+       /\ \A v \in PendSet \ {w} : Less(w, v)
+       /\ pending' = [pending EXCEPT ![w] = 0]
+       /\ live' = live \ {w}
+       /\ cpc' = IF live \ {w} = {} THEN "after" ELSE "loop"
+  /\ UNCHANGED <<dts, shape, wpc, wi, ri, closed, rdrop, fi, fic, np, got,
+                 recvErr, errs, ret, disk, listed, hpc, exitEarly, ntfClosed, exited>>
+
 \* after the loop: exit_early_check!, summary, return value
 CAfter ==
   /\ Alive /\ cpc = "after"
@@ -292,7 +306,7 @@ HFlag ==
 -----------------------------------------------------------------------------
 Worker(w) == WCreate(w) \/ WCreateRefused(w) \/ WRegister(w) \/ WDrop(w) \/ WSend(w) \/ WReturn(w)
 Coord == CExitEarly \/ CEnterSel \/ (\E w \in W : CDequeue(w) \/ CDisc(w)) \/ CNone
-         \/ CProcess \/ CPrint \/ CAfter \/ ProcExit
+         \/ CProcess \/ CPrint \/ CPrintError \/ CAfter \/ ProcExit
 Handler == HLock \/ HClear \/ HNtfLock \/ HRemove \/ HFlag
 
 Next == (\E w \in W : Worker(w)) \/ Coord \/ Sigint \/ Handler
@@ -324,7 +338,7 @@ NoSignal == hpc = "idle"
 
 \* C06: without a signal the loop ends only when every message of every source
 \* has been printed (with PrintIsEarliest: the output is the unique stable merge)
-AllPrintedAtEnd == (cpc \in {"after", "done"} /\ NoSignal) => \A w \in W : np[w] = NMsg(w)
+AllPrintedAtEnd == (cpc \in {"after", "done"} /\ NoSignal /\ ~EPIPE) => \A w \in W : np[w] = NMsg(w)
 
 \* C06: the "nothing to poll" exit is unreachable in a fault-free run
 NoneUnreachable == (cpc = "sel" /\ NoSignal) => Pollable # {}
@@ -333,6 +347,8 @@ NoneUnreachable == (cpc = "sel" /\ NoSignal) => Pollable # {}
 RetMeaning == (cpc = "done" /\ NoSignal) => (ret <=> \A w \in W : shape[w] = "ok")
 
 PendingLive == NoSignal => PendSet \subseteq live
+\* with failing writes the run still ends, and what was printed before is still in merge order (PrintIsEarliest holds
+\* for the sources not yet disconnected: a disconnected source is simply no longer waited for)
 ChanBound == \A w \in live : InChan(w) <= CAP /\ ri[w] <= wi[w]
 
 \* C18: nothing is left on disk when the process is gone
